@@ -117,6 +117,13 @@ type Violation struct {
 
 func (v Violation) Sig() string { return v.Prop + "/" + v.Oracle + "/" + v.Facts }
 
+// traceEvery (VERIF_TRACE=n) prints every n-th event to stderr: for looking at runs that do not end.
+var traceEvery = func() int {
+	n := 0
+	fmt.Sscanf(os.Getenv("VERIF_TRACE"), "%d", &n)
+	return n
+}()
+
 type Recorder struct {
 	mu       sync.Mutex
 	events   []Event
@@ -141,6 +148,9 @@ func (r *Recorder) Ev(kind, node, format string, a ...any) int {
 		text = fmt.Sprintf(format, a...)
 	}
 	r.events = append(r.events, Event{Seq: seq, T: t, Kind: kind, Node: node, Text: text})
+	if traceEvery > 0 && seq%traceEvery == 0 {
+		fmt.Fprintf(os.Stderr, "trace: event %d at virtual %s: %s %s %s\n", seq, time.Unix(0, t).UTC().Format("15:04:05.000"), kind, node, text)
+	}
 	return seq
 }
 
